@@ -90,6 +90,47 @@ fn dfs(prop: &str, g: &mut Game, p: &Pos, depth: u32, trail: &mut Vec<String>, r
     }
 }
 
+/// The real search under the interpreter: hash-table probes and stores (unchecked indexing), the staged
+/// move picker, move flag decoding, make/unmake, evaluation - on a 1 MB table, to a small depth.
+pub fn run_search(args: &Args, report: &Report) -> String {
+    use crate::engine::search::PersistentState;
+    use crate::mon_search::{do_search, judge_infos, Limit};
+    let depth = args.u64("--depth", 2) as u8;
+    let lo = args.u64("--root-lo", 0) as usize;
+    let hi = args.u64("--root-hi", ROOTS.len() as u64 - 1) as usize;
+    let mut l = Local::default();
+    let mut ps = PersistentState::new(1);
+    for root in ROOTS[lo..=hi.min(ROOTS.len() - 1)].iter() {
+        let p = Pos::from_fen(root).unwrap();
+        let Ok(g) = Game::from_fen(root) else { continue };
+        let legal = p.legal_moves();
+        if legal.is_empty() {
+            continue;
+        }
+        l.evaluations += 1;
+        l.distinct.insert(hash_str(root));
+        l.samples.push(js(*root));
+        match do_search(&g, &mut ps, &Limit::Depth(depth), 0) {
+            Err((m, loc)) => report.violation(Violation { monitor: "c04".into(), signature: format!("c04.panic@{}", short_loc(&loc)), what: format!("search of {root} panicked under Miri: {m}"), replay_args: vec![], detail: J::Null }),
+            Ok(out) => {
+                l.feat("searches_under_miri");
+                if !legal.iter().any(|x| x.from == out.best.from && x.to == out.best.to && x.promo == out.best.promo) {
+                    report.violation(Violation { monitor: "c04".into(), signature: "c04.illegal-best-move".into(), what: format!("{} is not legal in {root}", out.best.uci()), replay_args: vec![], detail: J::Null });
+                }
+                let mut scratch = Local::default();
+                if let Some((sig, what)) = judge_infos(&p, &out.infos, Some(depth), &mut scratch) {
+                    report.violation(Violation { monitor: "c04".into(), signature: sig, what, replay_args: vec![], detail: J::Null });
+                }
+                if let Some(last) = out.infos.last() {
+                    l.feat_n("nodes_searched_under_miri", last.nodes);
+                }
+            }
+        }
+    }
+    report.merge_local(&mut l);
+    "depth-limited searches of hazard roots sharing one 1 MB table, executed under the Miri interpreter; returned move and reported lines judged by the ordinary oracles; distinct = roots".into()
+}
+
 pub fn run(prop: &str, args: &Args, report: &Report) -> String {
     let depth = args.u64("--depth", 2) as u32;
     let lo = args.u64("--root-lo", 0) as usize;
